@@ -237,6 +237,24 @@ type failingWatchState struct {
 	state.State
 	fail    chan struct{}
 	watches atomic.Int32
+	mu      sync.Mutex
+	ctxs    []context.Context // the context of every watch the runtime has set up
+}
+
+// liveWatches: how many of the runtime's watches have not been cancelled.
+func (f *failingWatchState) liveWatches() int {
+	f.mu.Lock()
+	defer f.mu.Unlock()
+
+	n := 0
+
+	for _, c := range f.ctxs {
+		if c.Err() == nil {
+			n++
+		}
+	}
+
+	return n
 }
 
 func (f *failingWatchState) WatchKindAggregated(ctx context.Context, kind resource.Kind, ch chan<- []state.Event, opts ...state.WatchKindOption) error {
@@ -247,6 +265,10 @@ func (f *failingWatchState) WatchKindAggregated(ctx context.Context, kind resour
 	}
 
 	f.watches.Add(1)
+
+	f.mu.Lock()
+	f.ctxs = append(f.ctxs, ctx)
+	f.mu.Unlock()
 
 	go func() {
 		for {
@@ -370,6 +392,11 @@ func runWatchErrCase(t *testing.T, n int) (problems []string) {
 
 		if runErr == nil || !strings.Contains(runErr.Error(), "injected watch failure") {
 			problems = append(problems, fmt.Sprintf("watch-error-not-propagated: Run returned %v instead of the watch error", runErr))
+		}
+
+		// ... with every watch it had set up cancelled, although the caller's context is still alive
+		if n := fw.liveWatches(); n > 0 {
+			problems = append(problems, fmt.Sprintf("watch-left-behind: %d watch(es) set up by the runtime are still active after Run returned the watch error (the caller's context is alive)", n))
 		}
 
 		// Run returns with every controller goroutine stopped and no write issued afterwards
